@@ -726,6 +726,60 @@ class File(Relation):
     def generate(self, rng, n, tier):
         return [self._case(rng, k) for k in range(n)]
 
+    def exhaustive(self, tier):
+        # small scope, all combinations: 2 samples x 2 records (bi- and tri-allelic), every pair of haplotypes
+        # from a pool (one/two alleles, REF / ALT1 / ALT2, one with an absent variant), both .bp sample orders,
+        # ancestry tracts switching exactly on / just before a record, region forms around the second record,
+        # --id and --sample subsets, indexed and plain .hap files
+        import itertools
+
+        variants = [["v0", "1", 10, ["A", "C"]], ["v1", "1", 20, ["G", "T", "C"]]]
+        samples = ["s1", "s_2"]
+        datas = [[[[1, 0], [2, 1]], [[1, 1], [0, 2]]]]
+        pool = [
+            [["v0", "C", 10, 11]],
+            [["v1", "C", 20, 21]],
+            [["v0", "C", 10, 11], ["v1", "C", 20, 21]],
+            [["v0", "A", 10, 11], ["v1", "T", 20, 21]],
+            [["v0", "C", 10, 11], ["m0", "A", 25, 26]],
+        ]
+        tract_sets = [
+            {"s1": [[["YRI", "1", 10], ["CEU", "1", MAXI]], [["YRI", "1", MAXI]]],
+             "s_2": [[["CEU", "1", 19], ["YRI", "1", MAXI]], [["CEU", "1", 20], ["YRI", "1", MAXI]]]},
+        ]
+        regions = [None, ["1", None, None], ["1", 15, None], ["1", 10, 20], ["1", 10, 21]]
+        out = []
+        k = 0
+        for (i, j), region, ids, samp, anc_on, order, indexed in itertools.product(
+                itertools.combinations(range(len(pool)), 2), regions, [None, ["H0"]], [None, ["s_2"]],
+                [False, True], [["s1", "s_2"], ["s_2", "s1"]], [True, False]):
+            if region is not None and not indexed:
+                continue
+            if not anc_on and order != samples:
+                continue
+            haps = []
+            for n, x in enumerate((i, j)):
+                hv = pool[x]
+                haps.append({"id": f"H{n}", "chrom": "1", "start": min(v[2] for v in hv), "end": max(v[3] for v in hv),
+                             "anc": (["YRI", "CEU", ABSENT_LABEL][(x + n) % 3] if anc_on else None), "vars": hv,
+                             "rep": False})
+            haps.insert(1, {"id": "R0", "chrom": "1", "start": 12, "end": 14, "anc": None, "vars": [], "rep": True})
+            if indexed:
+                haps = sorted(haps, key=lambda h: (h["chrom"], h["start"], h["end"], h["id"]))
+            anc = {"tracts": tract_sets[0], "bp_order": order} if anc_on else None
+            if anc_on:
+                runs = [{"fmt": "vcf", "src": "pop"}, {"fmt": "vcf", "src": "bp"}, {"fmt": "pgen", "src": "bp"}]
+            else:
+                runs = [{"fmt": "vcf", "src": "none"}, {"fmt": "pgen", "src": "none"}]
+            for n, rr in enumerate(runs):
+                rr["out"] = ["vcf", "pgen"][(k + n) % 2]
+                rr["cli"] = (k % 3 == 0)
+            k += 1
+            out.append({"samples": samples, "vars": variants, "data": datas[0], "haps": haps, "indexed": indexed,
+                        "region": region, "ids": ids, "samp": samp, "anc": anc, "runs": runs, "kind": "exhaustive",
+                        "layout": "HV"})
+        return out[:: (1 if tier == "thorough" else 5)]
+
     # ---- what the run is expected to load (python mirror used only to route around C08's PGEN empty-match failure)
     def _wanted_found(self, inp):
         reg = inp["region"]
